@@ -840,3 +840,25 @@ def run(ctx):
                             "in state %s (a nested value is being read) an %s can make the machine answer with a value of its own without consulting the nested recogniser (blocks %s): the end of an item's own attribute / record is taken for the end of the outer body, so the direct reader rejects or cuts short what the model path reads" % (v, kind, (w or [])[:8]))
         if n_m < 3:
             raise AnchorMissing("expected the recogniser state machines that forward events (found %d)" % n_m)
+
+    with ctx.rule("C16.R15", "T5", "derive(Tag): the name a variant is written under (as_ref, VARIANTS) is the name it is read back by (from_str)", floor=3) as r:
+        # One clause of the derive macros that *is* table agreement inside a single function: DeriveTag::to_tokens builds three tables from the same
+        # (variant, rename) pairs. Each must turn the pair into a literal through the same NameTransform::transform - a table that spells the
+        # name by other means disagrees with the others for every variant renamed by a convention (kebab, camel, ..): the tag is written under one
+        # name and accepted only under another, so a `#[form(tag)]` field holding it cannot be read back from the model, MessagePack or Recon.
+        fd = ctx.crate("swimos_form_derive")
+        tt = [b for b in fd.all_bodies() if "tag::DeriveTag" in b.defpath and b.defpath.endswith("::to_tokens")]
+        if len(tt) != 1:
+            raise AnchorMissing("swimos_form_derive::tag::DeriveTag::to_tokens (found %d)" % len(tt))
+        tt = ctx.saw(tt[0])
+        tables = [cb for cb in fd.closures_of(tt.defpath) if cb.defpath.count("{closure") == 1]
+        maps = [c for c in tt.calls if c.name == "map"]
+        if len(tables) < 3 or len(maps) < 3:
+            raise AnchorMissing("DeriveTag::to_tokens: expected the three per-variant tables (found %d closures, %d maps)" % (len(tables), len(maps)))
+        for k_, cb in enumerate(sorted(tables, key=lambda x: x.defpath)):
+            tr = [c for c in cb.calls if c.name == "transform" and "NameTransform" in ((c.self_adt or "") + (c.defpath or ""))]
+            other = [rv for i, j, p_, rv, line in cb.assigns() if rv[0] == "agg" and False]
+            # the literal spliced into the tokens derives from that call
+            r.check(len(tr) == 1 and cb.must_pass([0], {tr[0].block})[0], "DeriveTag/table#%d/name-through-transform" % k_, where(cb), "the variant's name is produced by NameTransform::transform on every path",
+                    "this table of the Tag derive does not spell the variant's name through NameTransform::transform on every path: for a variant renamed by a naming convention the generated as_ref / VARIANTS / from_str disagree - the tag is written as `high-priority` and only `HighPriority` is read back")
+
